@@ -151,6 +151,11 @@ pub struct Counters {
     pub alloc_yields: u64,
     #[serde(default)]
     pub block_yields: u64,
+    #[serde(default)]
+    pub atomic_yields: u64,
+    /// atomic operations executed by library code of calls on simulated threads
+    #[serde(default)]
+    pub atomic_ops: u64,
 }
 
 pub struct SimState {
@@ -199,6 +204,8 @@ impl SimState {
                 session_records: 0,
                 alloc_yields: 0,
                 block_yields: 0,
+                atomic_yields: 0,
+                atomic_ops: 0,
             },
             session_open: false,
             session_transition: Vec::new(),
